@@ -5,6 +5,7 @@ import (
 	_ "verif/internal/props/c02"
 	_ "verif/internal/props/c03"
 	_ "verif/internal/props/c04"
+	_ "verif/internal/props/c05"
 	_ "verif/internal/props/c06"
 	_ "verif/internal/props/c15"
 	_ "verif/internal/props/c16"
